@@ -535,3 +535,54 @@ if __name__ == '__main__':
     print(sorted(g.features))
     for s in inputs_for(g, rng, g.start, 6):
         print(' '.join(s))
+
+
+# ---------------------------------------------------------------- unconstrained small grammars (analysis checks)
+
+def gen_small(rng, max_rules=4, max_toks=4, depth=3, parts=True):
+    """arbitrary references (recursion, hidden left recursion), nullable constructs; mostly NOT LL(1)"""
+    g = G()
+    nt = rng.randint(1, max_toks)
+    g.tokens = TOKS[:nt]
+    nr = rng.randint(1, max_rules)
+    names = ['s'] + ['r%d' % i for i in range(1, nr)]
+    g.start = 's'
+    num = [0]
+
+    def rx(d, rule_idx):
+        x = rng.random()
+        if d <= 0 or x < 0.3:
+            y = rng.random()
+            if y < 0.55:
+                return ('tok', rng.choice(g.tokens))
+            if y < 0.93:
+                cands = names[1:] if len(names) > 1 else []
+                if cands:
+                    return ('rule', rng.choice(cands))
+                return ('tok', rng.choice(g.tokens))
+            num[0] += 1
+            return rng.choice([('pred', 't'), ('pred', num[0]), ('action', num[0]), ('assert', num[0]), ('commit',), ('return',)])
+        if x < 0.55:
+            return ('cat', [rx(d - 1, rule_idx) for _ in range(rng.randint(2, 3))])
+        if x < 0.7:
+            return ('alt', [rx(d - 1, rule_idx) for _ in range(rng.randint(2, 3))])
+        if x < 0.75:
+            return ('choice', [rx(d - 1, rule_idx) for _ in range(2)])
+        if x < 0.83:
+            return ('opt', rx(d - 1, rule_idx))
+        if x < 0.9:
+            y = rx(d - 1, rule_idx)
+            return ('star', ('paren', y) if y[0] in ('cat', 'alt', 'choice') else y)
+        if x < 0.95:
+            y = rx(d - 1, rule_idx)
+            return ('plus', ('paren', y) if y[0] in ('cat', 'alt', 'choice') else y)
+        return ('paren', rx(d - 1, rule_idx))
+    for i, nm in enumerate(names):
+        body = rx(depth, i)
+        if i > 0 and rng.random() < 0.04:
+            body = None
+        g.rules.append((nm, False, body))
+    # self references are allowed in non-start rules only (the start rule must not be referenced)
+    if parts and len(names) > 1 and rng.random() < 0.3:
+        g.parts = rng.sample(names[1:], 1)
+    return g
